@@ -50,6 +50,8 @@ type pendingCommit struct {
 	opIdx         int
 	readTs        uint64
 	conflictBound uint64
+	batch         bool
+	recs          []*CommitRec
 }
 
 type clientState struct {
@@ -61,6 +63,7 @@ type clientState struct {
 	slots     [2]*txnState
 	cur       *pendingCommit
 	cbPending int
+	extra     *extraState
 }
 
 // Run executes one Case.
@@ -93,6 +96,11 @@ type Run struct {
 	phase        string
 	wms          map[string]*wmState
 	curRec       map[int64]*CommitRec // commit whose entries are currently being reported, per goroutine
+	subByGid     map[int64]*extraState
+	subSeq       int
+	seqSeen      map[string]map[uint64]string
+	maxAppliedTs uint64
+	pendingVerify []string
 	maxDiscardTs uint64               // highest discard watermark any compaction used so far
 	compactions  int
 }
@@ -112,6 +120,15 @@ func (r *Run) probe(name string) {
 func (r *Run) violate(props []string, rule, format string, args ...interface{}) {
 	r.mu.Lock()
 	defer r.mu.Unlock()
+	if r.viol != nil {
+		return
+	}
+	r.viol = &Violation{Props: props, Rule: rule, Msg: fmt.Sprintf(format, args...), Step: r.e.Steps}
+	r.abort = true
+}
+
+// violateLocked is violate for callers that already hold r.mu.
+func (r *Run) violateLocked(props []string, rule, format string, args ...interface{}) {
 	if r.viol != nil {
 		return
 	}
@@ -206,6 +223,9 @@ func (r *Run) open() error {
 
 // onEvent receives badger's semantic trace events (in the emitting goroutine).
 func (r *Run) onEvent(gid int64, kind string, a, b uint64, key, val []byte) {
+	if r.keepHist && os.Getenv("VERIF_LOG_EVENTS") != "" {
+		r.logf("event %s a=%d b=%d key=%q gid-name=%s", kind, a, b, key, r.e.NameOf(gid))
+	}
 	switch kind {
 	case "commitTs":
 		r.mu.Lock()
@@ -221,6 +241,7 @@ func (r *Run) onEvent(gid int64, kind string, a, b uint64, key, val []byte) {
 		if cl != nil && cl.cur != nil {
 			rec.Client, rec.OpIdx = cl.id, cl.cur.opIdx
 			cl.cur.rec = rec
+			cl.cur.recs = append(cl.cur.recs, rec)
 		}
 		r.mu.Lock()
 		r.model.AddCommit(rec)
@@ -241,6 +262,20 @@ func (r *Run) onEvent(gid int64, kind string, a, b uint64, key, val []byte) {
 	case "commitDone":
 		r.mu.Lock()
 		delete(r.inFlight, a)
+		if a > r.maxAppliedTs {
+			r.maxAppliedTs = a
+		}
+		for _, c := range r.model.Commits {
+			if c.Ts == a && c.Client < 0 {
+				c.Acked = true // internal commits (batches, sequences, merge Adds) have no client ack
+			}
+		}
+		r.mu.Unlock()
+	case "sub.registered":
+		r.mu.Lock()
+		if ex := r.subByGid[gid]; ex != nil {
+			ex.subRegTs = r.lastAllocTs + 1
+		}
 		r.mu.Unlock()
 	case "readTs":
 		r.mu.Lock()
@@ -378,6 +413,7 @@ func (r *Run) clientLoop(cl *clientState) {
 	r.mu.Unlock()
 	defer func() {
 		// discard whatever is left open so that Close can proceed
+		r.stopExtras(cl)
 		for s := range cl.slots {
 			if ts := cl.slots[s]; ts != nil {
 				ts.txn.Discard()
@@ -749,7 +785,9 @@ func keysOf(m map[string]bool) []string {
 }
 
 func (r *Run) allowCommitError(err error) bool {
-	return false
+	// a commit rejected by the size limits is legal (C03: it leaves no trace,
+	// which the model enforces through the commitFailed event)
+	return errors.Is(err, badger.ErrTxnTooBig)
 }
 
 // ---------- iterators ----------
@@ -1125,7 +1163,7 @@ func executeWith(t *testing.T, c *Case, prof *Profile, keepHist bool, pre func(*
 		return
 	}
 	defer os.RemoveAll(dir)
-	r := &Run{c: c, prof: prof, dir: filepath.Join(dir, "d"), model: NewModel(), byGid: map[int64]*clientState{}, inFlight: map[uint64]bool{}, keepHist: keepHist, wms: map[string]*wmState{}, curRec: map[int64]*CommitRec{}}
+	r := &Run{c: c, prof: prof, dir: filepath.Join(dir, "d"), model: NewModel(), byGid: map[int64]*clientState{}, inFlight: map[uint64]bool{}, keepHist: keepHist, wms: map[string]*wmState{}, curRec: map[int64]*CommitRec{}, subByGid: map[int64]*extraState{}, seqSeen: map[string]map[uint64]string{}}
 	r.vdir = r.dir
 	if c.Cfg.SeparateValueDir {
 		r.vdir = filepath.Join(dir, "v")
@@ -1185,6 +1223,9 @@ func (r *Run) bubble() {
 	r.startTime = time.Now()
 	e := NewEngine(r.c.Sched, r.c.Cfg.Groups)
 	e.KeepTrace = r.keepHist
+	if v := os.Getenv("VERIF_DUMP_AT_STEP"); v != "" {
+		fmt.Sscanf(v, "%d", &e.DumpAtStep)
+	}
 	r.e = e
 	e.OnEvent = r.onEvent
 	e.Install()
@@ -1428,6 +1469,9 @@ func (r *Run) finalChecks() {
 		if r.viol != nil {
 			return
 		}
+	}
+	if r.prof != nil && r.prof.NoIter {
+		return // merge write-backs reuse the version of a merge entry: whole-DB dumps are not comparable
 	}
 	r.opIter(cl, 0, &Op{K: "iter", It: &IterSpec{Prefix: -1, Seek: -1, KeyIter: -1, Reseek: -1, AllV: true}})
 	if r.viol != nil {
